@@ -476,7 +476,7 @@ func (vc *VC) look(st *State, name string) string {
 	}
 	if !vc.declared[s] {
 		vc.declare(s, sort)
-		if name == "$escaped" && st.epoch == 0 {
+		if (name == "$escaped" || name == "$escapedP") && st.epoch == 0 {
 			vc.emit(fmt.Sprintf("(assert (= %s ((as const %s) false)))", s, sort))
 		}
 		if strings.HasPrefix(name, "W!") && st.epoch == 0 {
@@ -821,10 +821,23 @@ func (vc *VC) havocLib(st *State) {
 	if _, ok := vc.hsort["$escaped"]; ok {
 		esc = vc.look(st, "$escaped")
 	}
+	escP := ""
+	if _, ok := vc.hsort["$escapedP"]; ok {
+		escP = vc.look(st, "$escapedP")
+	}
 	for _, v := range sortedKeys(vc.hsort) {
 		if ((strings.HasPrefix(v, "E!") || strings.HasPrefix(v, "C!")) && !vc.modElem[v]) || vc.libVars[v] {
 			old := vc.look(st, v)
 			vc.havocVar(st, v)
+			if strings.HasPrefix(v, "C!") {
+				// a variable whose address was never handed to a library keeps its value
+				nw := vc.look(st, v)
+				if escP != "" {
+					vc.emit(fmt.Sprintf("(assert (forall ((b Int)) (! (=> (not (select %s b)) (= (select %s b) (select %s b))) :pattern ((select %s b)))))", escP, nw, old, nw))
+				} else {
+					vc.emit(fmt.Sprintf("(assert (= %s %s))", nw, old))
+				}
+			}
 			if strings.HasPrefix(v, "E!") {
 				// backing arrays allocated by this function and never handed to a
 				// library call keep their contents (a library cannot reach them)
@@ -843,12 +856,23 @@ func (vc *VC) havocLib(st *State) {
 // markEscaped records that the backing array of a slice was handed to code
 // without a precise contract.
 func (vc *VC) markEscaped(st *State, slice string) {
-	hv := "$escaped"
+	vc.markEscapedBase(st, "(s_base "+slice+")")
+}
+
+func (vc *VC) markEscapedRef(st *State, ref string) {
+	vc.markEscapedIn(st, "$escapedP", ref)
+}
+
+func (vc *VC) markEscapedBase(st *State, ref string) {
+	vc.markEscapedIn(st, "$escaped", ref)
+}
+
+func (vc *VC) markEscapedIn(st *State, hv, ref string) {
 	if _, ok := vc.hsort[hv]; !ok {
 		vc.hsort[hv] = "(Array Int Bool)"
 	}
 	cur := vc.look(st, hv)
-	vc.set(st, hv, "(Array Int Bool)", fmt.Sprintf("(store %s (s_base %s) true)", cur, slice))
+	vc.set(st, hv, "(Array Int Bool)", fmt.Sprintf("(store %s %s true)", cur, ref))
 }
 
 func (vc *VC) typingFact(f string) {
